@@ -47,7 +47,8 @@ def parseKindSpec (s : String) : Option KindSpec :=
     match a.toNat?, b.toNat?, c.toNat? with
     | some a, some b, some c =>
       if meth == "walstart" then some (.kinesis a b c .walStart)
-      else if meth == "batch" then some (.kinesis a b c .batch) else none
+      else if meth == "batch" then some (.kinesis a b c .batch)
+      else (Driver.Batcher.pmOfName meth).map fun pm => .kinesis a b c (Partitioner.kinesisMethodFor pm)
     | _, _, _ => none
   | ["kafka", a, b, _] =>
     match a.toNat?, b.toNat? with
@@ -57,7 +58,7 @@ def parseKindSpec (s : String) : Option KindSpec :=
 
 def addEv (st : MState) (tok : String) : MState :=
   let h := st.h
-  if tok == "-" || tok.startsWith "valid=" || tok.startsWith "seen[" then st
+  if tok == "-" || tok.startsWith "valid=" || tok.startsWith "times=" || tok.startsWith "seen[" then st
   else if tok == "fatal" then { st with h := { h with fatal := true } }
   else if tok == "stat:dropped_too_big" then { st with h := { h with tooBigStats := h.tooBigStats + 1 } }
   else if tok == "stat:dropped_msg_invalid" then { st with h := { h with invalidStats := h.invalidStats + 1 } }
